@@ -1806,6 +1806,10 @@ vbi_dvb_mux_cor		(vbi_dvb_mux *		mx,
 			*sliced = s;
 			*sliced_left = s_left;
 			mx->cor_end = 0;
+			/* The frame is rejected as a whole, so there
+			   will be no next packet to continue an
+			   unfinished raw VBI line in. */
+			mx->raw_samples_left = 0;
 			/* errno = VBI_ERR_BUFFER_OVERFLOW; */
 			return FALSE;
 		}
@@ -1993,6 +1997,10 @@ vbi_dvb_mux_feed		(vbi_dvb_mux *		mx,
 	}
 
 	if (unlikely (s_left > 0)) {
+		/* The frame is rejected as a whole, so there will be
+		   no next packet to continue an unfinished raw VBI
+		   line in. */
+		mx->raw_samples_left = 0;
 		/* errno = VBI_ERR_BUFFER_OVERFLOW; */
 		return FALSE;
 	}
